@@ -265,7 +265,7 @@ def shard_blocks(desc, rec):
                         check_pair(rec, "edited-in-place", a2, b3, True, kind, f"edited-then-roundtrip({ename})", ecase)
                     except Exception:
                         rec.count("c14:edited-roundtrip-failed")
-        if kind in ("data3D", "emg", "force3D", "platData") and lib.nitems(spec) > 0 and i % 3 == 0:
+        if kind in ("data3D", "emg", "force3D", "platData") and lib.nitems(spec) > 0 and (i // 9) % 2 == 0:
             shared_buffer_pairs(rec, rng, kind, spec, case)
         for name, ms in mutations(rng, spec):
             if same_numbers(spec, ms):
